@@ -3,7 +3,7 @@
    (lexer -> token stream -> parser -> transforms), proofs in proofs/StmtExamples.v. *)
 From Coq Require Import List NArith Bool Arith.
 Import ListNotations.
-From PV Require Import Regex Base LexTables NodeModel ParserBase ParserDecl ParserMain Api StmtExamples.
+From PV Require Import Regex Base LexTables NodeModel ParserBase ParserDecl ParserMain Api StmtExamples AstSpec StmtProofs.
 
 (* the else belongs to the nearest unmatched if (C99 6.8.4.1p3) *)
 Theorem C05_dangling_else :
@@ -41,3 +41,12 @@ Theorem C05_static_assert_stmt_refuted :
 Proof. exact ex_C05_static_assert_stmt_refuted. Qed.
 Print Assumptions C05_static_assert_stmt_refuted.
 
+(* fix_switch_cases: for a switch body of ANY length whose label chains have ANY depth, the regrouped
+   body is exactly: statements under the nearest preceding label, consecutive labels as siblings,
+   statements before the first label in front (regroup_spec) - nothing lost, duplicated or reordered *)
+Theorem C05_switch_regroup_correct : forall (P: Type) cs items cur fuel st,
+  Forall (child_ok P) cs -> Forall (fun c => (child_depth P c < fuel)%nat) cs ->
+  switch_regroup P fuel (map (child_node P) cs) (fst (state_of P items cur)) (snd (state_of P items cur)) st
+  = Ok (regroup_spec P cs items cur, st).
+Proof. exact switch_regroup_correct. Qed.
+Print Assumptions C05_switch_regroup_correct.
